@@ -1,5 +1,47 @@
 import KrroodVerif.Sexp
+import KrroodVerif.Model.Json
+import KrroodVerif.Drive.JsonIO
+/-!
+C19 driver. Cases:
+* `(resolve TAG (env …))`, `TAG = absent | JSON`: one document `{"__json_type__": TAG}`.
+  `model=` `resolve Quirks.current`, `model_fixed=` `resolve Quirks.none`, `spec=` `spec` (`jse*` = any documented
+  error), `trig=` the open findings whose trigger the input satisfies.
+* `(doc (env …) JSON)`: a whole document with tags at any depth through `fromJson`; the property demands the value
+  when every tag resolves and some documented error otherwise.
+-/
 namespace KrroodVerif.Drive.C19
-/-- stub: replaced when the model for C19 is built -/
-def run (_ : Sexp) : String := "model=unimplemented\tspec=unimplemented\ttrig="
+open KrroodVerif.Json KrroodVerif.Drive.JsonIO
+
+def dedup (xs : List String) : List String := sortStrings (dedupStrings xs)
+
+def run (s : Sexp) : String :=
+  match s with
+  | .list [.atom "resolve", t, e] =>
+    let tag? : Option (Option Json) :=
+      match t with | .atom "absent" => some none | _ => (parseJson t).map some
+    match tag?, parseEnv e with
+    | some tag, some d =>
+      if !tagCovered d tag then "error=env-miss"
+      else
+        let env := d.toEnv
+        let q := Quirks.current
+        s!"model={showOutcome (resolve q env tag)}\tmodel_fixed={showOutcome (resolve .none env tag)}\tspec={showExpect (spec env tag)}\ttrig={",".intercalate (trigIds q env tag)}"
+    | _, _ => "error=bad-case"
+  | .list [.atom "doc", e, j] =>
+    match parseEnv e, parseJson j with
+    | some d, some j =>
+      let tags := jsonTags j
+      if !tags.all (tagCovered d) then "error=env-miss"
+      else
+        let env := d.toEnv
+        let q := Quirks.current
+        let fixed := fromJson .none env j
+        let sp := match fixed with
+          | .ok v => showVal v
+          | .error (.doc _) => "jse*"
+          | .error e => showResult (.error e)
+        let trig := dedup (tags.flatMap (trigIds q env))
+        s!"model={showResult (fromJson q env j)}\tmodel_fixed={showResult fixed}\tspec={sp}\ttrig={",".intercalate trig}"
+    | _, _ => "error=bad-case"
+  | _ => "error=bad-case"
 end KrroodVerif.Drive.C19
